@@ -373,11 +373,15 @@ def diff_kind(res, want):
         return "rejected(%s)" % norm_msg(res[1])
     wargs, wfiles = want
     gargs, gfiles = res[1], flat_files(res[2])
-    # a part without a Content-Type header: the default type is not asserted
+    # a part without a Content-Type header: the default type is not asserted - but it is that part's own default,
+    # never the type another part of the same body declared
+    declared = {x[1] for w in wfiles.values() for x in w if x[1] is not None}
     for k, v in gfiles.items():
         w = wfiles.get(k, [])
         for j in range(min(len(v), len(w))):
             if w[j][1] is None:
+                if v[j][1] in declared:
+                    return "typeless-file-inherits-type"
                 v[j] = (v[j][0], None, v[j][2])
     if gargs == wargs and gfiles == wfiles:
         return None
@@ -687,6 +691,16 @@ def fam_C(tier, i, n):
             if kinds.count("file") <= 1 and kinds.count("field") <= 2:
                 shapes.append(kinds)
     outer = [(sh, nms) for sh in shapes for nms in itertools.product(C_NAMES, repeat=len(sh))]
+    if i == 0:
+        # several files in one form, some without a Content-Type of their own
+        for t1, t2, t3 in itertools.product((None, "image/png", "text/plain"), repeat=3):
+            for mid in (False, True):
+                items = [["file", "a", "fa", t1, cs[1]]] + ([["field", "x", cs[2]]] if mid else []) + \
+                        [["file", "b", "fb", t2, cs[2]], ["file", "a", "fc", t3, cs[3]]]
+                for st in ("quoted", "ext"):
+                    yield {"enc": "mp", "items": items,
+                           "v": {"ns": st, "fs": st, "order": "nf", "hdr": "std",
+                                 "tail": "crlf", "ct": "plain", "b": b}}
     for sh, nms in outer[i::n]:
         cs_sh = cs[:4] if (tier == "quick" and len(sh) == 3) else cs
         for vals in itertools.product(cs_sh, repeat=len(sh)):
